@@ -90,8 +90,8 @@ def scanEscape (inClass : Bool) (s : List Char) : Except Res (List Char × List 
 /-- scanBracket: input starts at '['. -/
 def scanBracket (fuel : Nat) (s : List Char) : Except Res (List Char × List Char) :=
   match s with
-  | '[' :: ']' :: rest => .ok ((['[', '^', Char.ofNat 0, '-', Char.ofNat 0x1FFFF, ']'] : List Char), rest)
-  | '[' :: '^' :: ']' :: rest => .ok ((['[', Char.ofNat 0, '-', Char.ofNat 0x1FFFF, ']'] : List Char), rest)
+  | '[' :: ']' :: rest => .ok ((['[', '^', Char.ofNat 0, '-', Char.ofNat 0x10FFFF, ']'] : List Char), rest)
+  | '[' :: '^' :: ']' :: rest => .ok ((['[', Char.ofNat 0, '-', Char.ofNat 0x10FFFF, ']'] : List Char), rest)
   | '[' :: rest =>
     let rec go (fuel : Nat) (s : List Char) (acc : List Char) : Except Res (List Char × List Char) :=
       match fuel with
@@ -104,7 +104,7 @@ def scanBracket (fuel : Nat) (s : List Char) : Except Res (List Char × List Cha
           match scanEscape true rest with
           | .ok (out, rest') => go fuel rest' (acc ++ out)
           | .error e => .error e
-        | c :: rest => go fuel rest (acc ++ [c])
+        | c :: rest => go fuel rest (if c = '[' then acc ++ ['\\', '['] else acc ++ [c])   -- D8: '[' inside a class is escaped
     go fuel rest ['[']
   | _ => .error .fatal
 
